@@ -19,8 +19,11 @@ if ! git -C "$tree" diff --quiet; then echo "tracked files in $tree are modified
 git -C "$tree" apply "$patch" || { echo "patch does not apply" >&2; exit 2; }
 trap 'git -C "$tree" checkout -- .' EXIT
 for p in "$@"; do
+  # the evidence file belongs to runs against the unchanged tree: keep it out of the way of this run
+  [ -f "evidence/$p.json" ] && cp "evidence/$p.json" "evidence/.$p.json.keep"
   out=$(VERIF_SEED=${VERIF_SEED:-20260929} ./verify "$p" --tier ${TIER:-quick} 2>&1)
   rc=$?
+  [ -f "evidence/.$p.json.keep" ] && mv "evidence/.$p.json.keep" "evidence/$p.json"
   v=$(echo "$out" | grep -c '^VIOLATION')
   if [ "$rc" = 1 ] && [ "$v" -ge 1 ]; then
     echo "$p caught: $(echo "$out" | grep '^VIOLATION' | head -1)"
